@@ -165,7 +165,8 @@ def writeInfo (k : Kern) (b : Bound) (a : Arg) : WriteInfo :=
     if b.lvl.litDepth != 0 then ⟨b.lvl.litDepth, false, dirtyOuter⟩ else ⟨0, true, dirtyOuter⟩
   else ⟨0, false, dirtyOuter⟩
 
-/-- `LFRicHaloExchange.required`: `(required, known)`.
+/-- `LFRicHaloExchange.required`: `(required, known)`, with `fixes/C22-required-max-depth-m1.patch`
+(an aggregated `max_depth-1` requirement is not a literal depth 0).
 `req` = aggregated read information, `w` = previous writer (none: no write dependence). -/
 def required (cfg : Cfg) (req : List HaloDepth) (w : Option WriteInfo) : Bool × Bool :=
   let r0 : HaloDepth := req.headD ⟨0, none, false, false, false⟩
@@ -183,7 +184,7 @@ def required (cfg : Cfg) (req : List HaloDepth) (w : Option WriteInfo) : Bool ×
       let cleanDepth := if c.dirtyOuter then c.lit - 1 else c.lit
       if req.length > 1 && req.any (fun r => r.lit > cleanDepth) then (true, true)
       else if req.length == 1 then
-        if r0.var.isSome || r0.maxDepth then (true, false)
+        if r0.var.isSome || r0.maxDepth || r0.maxM1 then (true, false)   -- `maxM1`: fix C22-required-max-depth-m1
         else if cleanDepth < r0.lit then (true, true) else (false, true)
       else (true, false)
 
